@@ -600,6 +600,23 @@ def l20(led, rid, ctx):
     led.floor(rid, "propagators with accumulated un-trailed state", n, 1)
 
 
+def l21(led, rid, ctx):
+    """PropositionalConjunction::extend_and_remove_duplicates is a set union: it treats predicates as
+    opaque values (equality / hashing only) and neither drops nor rewrites one because of its content"""
+    lib = ctx.lib
+    f = lib.method("PropositionalConjunction", "extend_and_remove_duplicates")
+    bad = []
+    for g in f.with_closures():
+        for c in g.calls:
+            st = c.self_ty or ""
+            if st.endswith("predicate::Predicate") and c.name not in ("eq", "ne", "hash", "clone", "fmt"):
+                bad.append(c.name)
+    led.check(not bad, rid, "extend_and_remove_duplicates:opaque-union", f.span, "only ==/hash on predicates",
+              "extend_and_remove_duplicates inspects predicates (%s): a reason is no longer the union of its "
+              "parts — a bound that one part needs is replaced or dropped, and the explanation built from the "
+              "chain of profiles no longer implies the propagation" % sorted(set(bad)))
+
+
 def l12(led, rid, ctx):
     """CACHE-INVALIDATION: the cumulative propagation handler caches the explanation of `the
     current profile`; every way from one use of the cache to the next that passes the point where
@@ -694,3 +711,4 @@ def run(ctx, led):
     run_rule(led, "L18", "WITNESS-POINT of pointwise hole explanations (shared with C08-H11)", _C08.h11, ctx)
     run_rule(led, "L19", "the lazy element reason ranges over every array position", l19, ctx)
     run_rule(led, "L20", "INCREMENTAL-RESET: accumulated un-trailed propagator state is invalidated unconditionally on backtrack", l20, ctx)
+    run_rule(led, "L21", "extend_and_remove_duplicates is an opaque set union", l21, ctx)
